@@ -99,6 +99,8 @@ type c18Prof struct {
 	Chain string `json:"chain"`
 	// Xml: the spelling of the declarations (never changes what is declared)
 	Xml c18Xml `json:"xml"`
+	// Conf: OOXML conformance class, "transitional" or "strict"
+	Conf string `json:"conf"`
 }
 
 type c18Xml struct {
@@ -135,8 +137,10 @@ type c18Case struct {
 	Prof  c18Prof   `json:"prof"`
 	Parts []c18Part `json:"parts"`
 	Roots []c18Root `json:"roots"`
-	Pages []int     `json:"pages"`
-	Count int       `json:"count"`
+	// Declared: every declared part in declared order, readable or not (spec)
+	Declared []int `json:"declared"`
+	Pages    []int `json:"pages"`
+	Count    int   `json:"count"`
 }
 
 // ------------------------------------------------------------ rendering
@@ -182,7 +186,7 @@ const c18NavTok = 92 // shown only inside the EPUB navigation document
 func c18Members(c *c18Case) ([]ooxmlw.Member, string) {
 	switch c.Fmt {
 	case "xlsx":
-		wb := &ooxmlw.XWorkbook{Extras: c.Prof.Extras, InfraFirst: c.Prof.Infra, RelsInfraFirst: c.Prof.Chain == "infraFirst", Sp: c.Prof.Xml.spelling()}
+		wb := &ooxmlw.XWorkbook{Extras: c.Prof.Extras, InfraFirst: c.Prof.Infra, RelsInfraFirst: c.Prof.Chain == "infraFirst", RelsInfraMixed: c.Prof.Chain == "infraMixed", Strict: c.Prof.Conf == "strict", Sp: c.Prof.Xml.spelling()}
 		for _, p := range c.Parts {
 			wb.Sheets = append(wb.Sheets, ooxmlw.XSheet{
 				Name: fmt.Sprintf("n%03d", p.ID), SheetID: 20 + p.ID, RID: fmt.Sprintf("rId%d", 3+p.Rel),
@@ -194,7 +198,7 @@ func c18Members(c *c18Case) ([]ooxmlw.Member, string) {
 		}
 		return wb.Members(), ".xlsx"
 	case "pptx":
-		d := &ooxmlw.Deck{Extras: c.Prof.Extras, InfraFirst: c.Prof.Infra, RelsInfraFirst: c.Prof.Chain == "infraFirst", Sp: c.Prof.Xml.spelling()}
+		d := &ooxmlw.Deck{Extras: c.Prof.Extras, InfraFirst: c.Prof.Infra, RelsInfraFirst: c.Prof.Chain == "infraFirst", RelsInfraMixed: c.Prof.Chain == "infraMixed", Strict: c.Prof.Conf == "strict", Sp: c.Prof.Xml.spelling()}
 		for _, p := range c.Parts {
 			d.Slides = append(d.Slides, ooxmlw.PSlide{Text: c18Tok(p.ID), SldID: 256 + 2*p.Rel + p.ID*16, RID: fmt.Sprintf("rId%d", 3+p.Rel),
 				PartName: c18NameStr(p.Name), Target: c18HrefStr(p.Href), DeclPos: p.Decl, RelPos: p.Rel, ZipPos: p.Zip + 1, Absent: !p.Present})
@@ -387,6 +391,9 @@ func c18Feature(c *c18Case) string {
 		f = append(f, "opf="+c.Prof.Opf)
 	}
 	x := c.Prof.Xml
+	if c.Fmt != "epub" {
+		f = append(f, "conf="+c.Prof.Conf, "chain="+c.Prof.Chain)
+	}
 	f = append(f, fmt.Sprintf("rev=%v", x.Rev), fmt.Sprintf("foreign-id-last=%v", x.Foreign && !x.Rev), fmt.Sprintf("foreign-id-first=%v", x.Foreign && x.Rev), fmt.Sprintf("prefix=%v", x.Prefix != "" && x.Prefix != "r"),
 		fmt.Sprintf("quotes=%v", x.Single), fmt.Sprintf("oc=%v", x.OC), fmt.Sprintf("gaps=%v", x.Gaps), "decl="+x.Decl)
 	return "{" + strings.Join(f, ",") + "}"
@@ -589,6 +596,34 @@ func c18Key(raw []byte) string {
 	return hex.EncodeToString(h[:10])
 }
 
+// c18CheckExtra: like c18Check; an API with a selection may present the selection or everything.
+func c18CheckExtra(c *c18Case, apis []c18API, sels map[string][]int, problems []string) *c18Mismatch {
+	if len(problems) > 0 {
+		return &c18Mismatch{"views", "view-inconsistent", problems[0]}
+	}
+	for _, a := range apis {
+		sel, has := sels[a.Name]
+		if !has {
+			if m := c18Check(c, []c18API{a}); m != nil {
+				return m
+			}
+			continue
+		}
+		whole := c18Check(c, []c18API{a})
+		if whole == nil {
+			continue // the selection is not taken by this format: everything, in order
+		}
+		cc := *c
+		cc.Pages, cc.Count = sel, len(sel)
+		if m := c18Check(&cc, []c18API{a}); m != nil {
+			m.Symptom = "selection:" + m.Symptom
+			m.What = fmt.Sprintf("neither the selected parts %v nor all parts %v: %s", sel, c.Pages, m.What)
+			return m
+		}
+	}
+	return nil
+}
+
 func c18Nontrivial(c *c18Case) bool {
 	for _, p := range c.Parts {
 		if p.Decl > 0 && (p.Decl != p.Name.N || !p.Present) {
@@ -635,7 +670,20 @@ func c18Replay(i int, raw []byte) Result {
 	defer os.Remove(path)
 	obs := c18Observe(path, c.Fmt)
 	res.Evals = len(obs)
-	if m := c18Check(&c, obs); m != nil {
+	m := c18Check(&c, obs)
+	if m == nil {
+		// entry-point audit: the other public views
+		// one view per case in quick, two in thorough, rotating: every view sees an even share of all cases
+		which := []string{c18ExtraViews[i%len(c18ExtraViews)]}
+		if tier() != "quick" {
+			which = append(which, c18ExtraViews[(i/len(c18ExtraViews)+i+1)%len(c18ExtraViews)])
+		}
+		xa, sels, problems := c18Extra(path, &c, which)
+		res.Evals += len(xa)
+		obs = append(obs, xa...)
+		m = c18CheckExtra(&c, xa, sels, problems)
+	}
+	if m != nil {
 		r := fail(m.Symptom, "C18:"+c.Fmt+":"+m.Symptom, fmt.Sprintf("%s (%s): %s", c.Fmt, m.API, m.What),
 			map[string]interface{}{"case": json.RawMessage(raw), "observed": obs})
 		r.Nontrivial, r.Key, r.Evals = res.Nontrivial, res.Key, res.Evals
@@ -687,5 +735,5 @@ func c18SelfTest(i int, raw []byte) Result {
 			zord = append(zord, c18NameStr(q.Name))
 		}
 	}
-	return Result{OK: true, Replay: map[string]interface{}{"path": p, "fmt": c.Fmt, "members": ooxmlw.Names(ms), "declared": decl, "ziporder": zord, "absent": absent, "nroots": len(c.Roots)}}
+	return Result{OK: true, Replay: map[string]interface{}{"path": p, "fmt": c.Fmt, "members": ooxmlw.Names(ms), "declared": decl, "ziporder": zord, "absent": absent, "nroots": len(c.Roots), "strict": c.Prof.Conf == "strict"}}
 }
